@@ -1,16 +1,16 @@
 SPECIFICATION MCSpec
 CONSTANTS
-  NP = 2
-  K = 2
+  NP = 1
+  K = 3
   MaxSend = 1
-  MaxDup = 1
-  MaxRestart = 1
+  MaxDup = 0
+  MaxRestart = 0
   Idem = 1
-  MaxOps = 11
-  MaxRetry = 0
+  MaxOps = 1000
+  MaxRetry = 1
   Stale = FALSE
-  Outcomes = {"sent"}
-  MppRetry = {0}
+  Outcomes = {"sent", "wip", "ref"}
+  MppRetry = {0, 1}
   Bug = "none"
 CONSTRAINT Bound
 VIEW View
